@@ -80,6 +80,12 @@ class Acc:
         self.depth += 1
         if self.depth > 5:
             fail(self.cname, "call depth")
+        if fn.decorator_list:
+            fail("%s.%s" % (self.cname, name), "decorators %s (the accessor would no longer be a function of the object's "
+                 "current attributes)" % [ast.unparse(d) for d in fn.decorator_list])
+        for x in ast.walk(fn):
+            if isinstance(x, (ast.Global, ast.Nonlocal)) or (isinstance(x, (ast.Lambda, ast.FunctionDef)) and x is not fn):
+                fail("%s.%s" % (self.cname, name), "global/nonlocal statement or nested function")
         a = fn.args
         params = [x.arg for x in a.args]
         if a.vararg or a.kwarg or a.kwonlyargs or a.defaults or a.posonlyargs or len(params) not in (1, 2):
@@ -239,13 +245,34 @@ def coq(t):
 
 
 # ------------------------------------------------------------------ sources
+ACC_NAMES = {m for _, m in WANTED} | {"_get_cell_id", "_get_population", "summary", "get_size"}
+
+
 def load_nml():
     tree = ast.parse(open(os.path.join(NML, "nml.py")).read())
     classes = {}
     for n in tree.body:
         if isinstance(n, ast.ClassDef):
             bases = [b.id for b in n.bases if isinstance(b, ast.Name)]
+            if n.name in classes:
+                fail(n.name, "class defined more than once")
             classes[n.name] = {"bases": bases, "funcs": class_funcs(n.body), "node": n}
+            # a class-level assignment rebinding an accessor (x = lru_cache()(x)) or a class decorator changes what runs
+            for st in n.body:
+                if isinstance(st, (ast.Assign, ast.AugAssign, ast.AnnAssign)):
+                    tg = st.targets if isinstance(st, ast.Assign) else [st.target]
+                    for t in tg:
+                        if isinstance(t, ast.Name) and t.id in ACC_NAMES:
+                            fail(n.name, "%s is rebound by a class-level assignment" % t.id)
+        else:
+            for x in ast.walk(n) if not isinstance(n, ast.FunctionDef) else []:
+                if isinstance(x, ast.Attribute) and isinstance(x.ctx, ast.Store) and x.attr in ACC_NAMES \
+                        and isinstance(x.value, ast.Name) and x.value.id[:1].isupper():
+                    fail("module", "%s.%s is assigned at module level" % (x.value.id, x.attr))
+    for c, _ in WANTED:
+        for k in mro(classes, c):
+            if classes[k]["node"].decorator_list:
+                fail(k, "class decorators")
     return classes
 
 
@@ -447,6 +474,8 @@ def translate(classes, funcs_of, parse_delay_fn):
     sfn = resolve("NeuroMLDocument", "summary")
     if sfn is None:
         fail("NeuroMLDocument", "summary not found")
+    if sfn.decorator_list:
+        fail("NeuroMLDocument.summary", "decorators %s" % [ast.unparse(d) for d in sfn.decorator_list])
     summ = summary_table(sfn)
     return acc, summ
 
